@@ -734,6 +734,8 @@ func msgClass(m string) string {
 
 func oracleC01(o *Outcome, d *Disk) (class, sig, msg string) {
 	switch {
+	case o.Deadlock != "":
+		return "deadlock", "deadlock", "the build started goroutines of its own and none of them (nor the build itself) can make progress: it never returns\n  " + o.Deadlock
 	case o.StepLim:
 		return "step-limit", "more than 5000 file accesses", fmt.Sprintf("the build performed more than %d file-system accesses: it does not terminate in steps proportional to the input", maxAccesses)
 	case o.Panic != "":
